@@ -3,7 +3,7 @@ import time
 from harness import Program, Inconclusive, RC, WEAK
 from rules_ts import Teardown, Borrows, handle_boxes
 from rules_gate import Gate, Counters, Kill, short
-from rules_trace import Verdict, Trace, ClosureCache, Adaptors, GroupPhases
+from rules_trace import Verdict, Trace, ClosureCache, Adaptors, GroupPhases, IterLocal, MapEmptiness
 from rules_api import TableOps, AdoptSchema, Purge, Getters, ApiSpec, Forward, FWD_TRAITS, REF_TRAITS
 import rules_struct
 
@@ -45,14 +45,14 @@ def analyse(program):
         hb = handle_boxes(g)
         self_box = hb[1][1] if 1 in hb else None
         name = short(fn.path)
-        rules = [Teardown(kind, self_box), Borrows(), Gate(kind, self_box), Counters(kind, self_box, fn),
-                 Kill(kind, self_box, fn.path), Verdict(closures, fn), Trace(closures, P), Adaptors(closures), TableOps(closures), GroupPhases()]
+        rules = [MapEmptiness(), Teardown(kind, self_box), Borrows(), Gate(kind, self_box), Counters(kind, self_box, fn),
+                 Kill(kind, self_box, fn.path), Verdict(closures, fn), Trace(closures, P), Adaptors(closures), TableOps(closures), GroupPhases(), IterLocal()]
         if fn is adopt:
             rules.append(AdoptSchema("adopt", hb))
         elif fn is unadopt:
             rules.append(AdoptSchema("unadopt", hb))
         if kind == "rc_drop":
-            rules.append(Purge(self_box))
+            rules.append(Purge(self_box, closures))
         if name in ("Weak::strong_count", "Weak::weak_count", "Rc::strong_count", "Rc::weak_count"):
             rules.append(Getters(name, self_box))
         if not fn.f.get("impl_trait") and (name.startswith("Rc::") or name.startswith("Weak::")):
